@@ -73,6 +73,13 @@ COPIES = [
     ("reamber.base.lists.TimedList.TimedList.move_end_to", "moved copy"),
     ("reamber.base.lists.TimedList.TimedList.append", "new list (pd.concat of self and the appended value)"),
     ("reamber.base.lists.TimedList.TimedList.sorted", "new list (sort_values)"),
+    # the filters select rows with a boolean mask, which copies; an integer slice of the same rows would be a view
+    ("reamber.base.lists.TimedList.TimedList.after", "filtered list (boolean-mask copy)"),
+    ("reamber.base.lists.TimedList.TimedList.before", "filtered list (boolean-mask copy)"),
+    ("reamber.base.lists.TimedList.TimedList.between", "filtered list (boolean-mask copy)"),
+    ("reamber.base.lists.notes.HoldList.HoldList.after", "filtered list (boolean-mask copy)"),
+    ("reamber.base.lists.notes.HoldList.HoldList.before", "filtered list (boolean-mask copy)"),
+    ("reamber.base.lists.notes.HoldList.HoldList.between", "filtered list (boolean-mask copy)"),
 ]
 
 
